@@ -184,8 +184,8 @@ def stress_stage(prop_essential):
                 essential=prop_essential, timeout=dict(quick=900, thorough=7200))
 
 PROPS["C01"]["stages"].append(dict(name="poollin", engine="poollin", test="TestVerifPoolLin", batches=dict(quick=8, thorough=16),
-                                  essential={"C01": ["C01.lin-history", "C01.lin-binds", "C01.lin-unbinds", "C01.lin-reads"]}, timeout=dict(quick=900, thorough=7200)))
-PROPS["C01"]["rule"] += "; poollin stage: concurrent histories (3-8 goroutines, 1-3 shared keys, 2-4 READY channels) checked by porcupine, partitioned by key; distinct = history parameters and index"
+                                  essential={"C01": ["C01.lin-history", "C01.lin-binds", "C01.lin-unbinds", "C01.lin-reads", "C01.lin-refresh-swaps"]}, timeout=dict(quick=900, thorough=7200)))
+PROPS["C01"]["rule"] += "; poollin stage: concurrent histories (3-8 goroutines, 1-3 shared keys, 2-4 READY channels; every other history with 3-10 transparent connection refreshes completed by a callback goroutine meanwhile, results recorded as logical channels) checked by porcupine, partitioned by key; distinct = history parameters and index"
 PROPS["C01"]["assumptions"] = PROPS["C01"]["assumptions"] + ["poollin stage: per-key register model (bind = write-if-absent, unbind = clear, keyed pick = read); porcupine timeouts are inconclusive"]
 PROPS["C02"]["stages"].append(stress_stage({"C02": ["C02.stress-quiescent-zero", "stress.placed", "C02.stress-balanced-fill"]}))
 PROPS["C07"]["stages"].append(stress_stage({"C07": ["C07.stress-one-replacement", "C07.stress-concurrent-timeouts"]}))
